@@ -889,3 +889,9 @@ m('C18', 'run --clean keeps the results', RUN,
 m('C19', 'extract_1d: merged thickness from the first cell', MODELS,
   "            hz = np.diff(np.r_[self.grid.nodes_z[ind], self.grid.nodes_z[-1]])",
   "            hz = np.diff(np.r_[ind, self.shape[2]])*self.grid.h[2][ind]", 'C19.L1.merge')
+m('C14', 'interpolate_to_grid: mapping log flag for all properties (defect F15)', MODELS,
+  "            if prop in self._properties[:3]:\n                inp = g2g_inp\n            else:\n                inp = {**g2g_inp, 'log': log}\n",
+  "            inp = g2g_inp\n", 'C14.M5.unmapped')
+m('C19', 'extract_1d: mapping decides the averaging of mu_r (defect F15)', MODELS,
+  "            log = not (mapped and self.map.name.startswith('L'))",
+  "            log = not self.map.name.startswith('L')", 'C19.L1.average')
